@@ -57,6 +57,44 @@ fn ge_prod(a: u128, b: u128, c: u128, d: u128) -> bool {
     mul128(a, b) >= mul128(c, d)
 }
 
+pub fn rate_in_bounds(n: u128, l: u128) -> bool {
+    if l == 0 {
+        return true;
+    }
+    if n == 0 {
+        return false;
+    }
+    mul128(n, 1000) >= mul128(l, 1) && mul128(l, 1000) >= mul128(n, 1)
+}
+
+/// Would the totals after `op` (were it to succeed) still have a rate inside the bounds?
+pub fn would_be_in_bounds(sc: &Sc, pre: &Obs, op: &Op) -> bool {
+    let m = op.msg_value();
+    let funds: Vec<(String, u128)> = match op {
+        Op::Exec { funds, .. } | Op::ExecProbe { funds, .. } => funds.clone(),
+        Op::Hook { channel, amount, .. } => vec![(ibc_denom_for(channel), *amount)],
+        _ => vec![],
+    };
+    let paid_s: u128 = funds.iter().filter(|(d, _)| d == &sc.s).map(|(_, a)| *a).sum();
+    if let Some(r) = m.get("resume_contract") {
+        return rate_in_bounds(vu128(r, "total_native_token"), vu128(r, "total_liquid_stake_token"));
+    }
+    if m.get("receive_rewards").is_some() {
+        return rate_in_bounds(pre.n.saturating_add(paid_s), pre.l) && rate_in_bounds(pre.n.saturating_add(paid_s / 2), pre.l);
+    }
+    if m.get("liquid_stake").is_some() {
+        let (n0, l0) = if pre.l == 0 { (0, 0) } else { (pre.n, pre.l) };
+        let minted = if n0 == 0 { paid_s } else { prim::mul_div_floor(paid_s, l0, n0).unwrap_or(u128::MAX) };
+        return rate_in_bounds(n0.saturating_add(paid_s), l0.saturating_add(minted));
+    }
+    if m.get("submit_batch").is_some() {
+        let b = pre.pending.total.min(pre.l);
+        let u = if pre.l == 0 { 0 } else { prim::mul_div_floor(pre.n, b, pre.l).unwrap_or(0) };
+        return rate_in_bounds(pre.n.saturating_sub(u), pre.l - b);
+    }
+    true
+}
+
 pub fn regime(n: u128, l: u128) -> &'static str {
     if l == 0 && n == 0 {
         "empty"
@@ -124,15 +162,23 @@ impl Model {
             *self.panics.entry(p.clone()).or_insert(0) += 1;
         }
         if self.on("C16") {
+            // the property covers states (and resulting states) whose exchange rate lies in [1e-3, 1e3]
+            let in_bounds = pre.state_ok && rate_in_bounds(pre.n, pre.l) && would_be_in_bounds(sc, pre, op);
             for p in &res.panics {
-                v.push(Viol { prop: "C16", what: format!("panic in {p} during {kind}") });
+                if in_bounds {
+                    v.push(Viol { prop: "C16", what: format!("panic in {p} during {kind}") });
+                } else {
+                    self.count("panic_outside_rate_bounds");
+                }
             }
-            self.seen("C16", format!("{kind}|{okc}|{}", Self::abstract_state(pre, sc)));
+            if in_bounds {
+                self.seen("C16", format!("{kind}|{okc}|{}", Self::abstract_state(pre, sc)));
+            }
         }
-        if !post.errors.is_empty() && self.on("C16") {
+        if !post.errors.is_empty() && self.on("C16") && pre.state_ok && rate_in_bounds(pre.n, pre.l) && would_be_in_bounds(sc, pre, op) {
             for e in &post.errors {
                 if e.contains("panic:") {
-                    v.push(Viol { prop: "C16", what: format!("query panicked: {e}") });
+                    v.push(Viol { prop: "C16", what: format!("query panicked after {kind}: {e}") });
                 }
             }
         }
